@@ -37,21 +37,40 @@ def main():
     m = [x for x in M if x["id"] == "d2_revert_deque_check"][0]
     d = make_copy(m)
     bad = 0
+    # the open findings of the committed file (F1) are genuine on every tree: every case below lists them too
+    OPEN = [f for f in json.load(open(os.path.join(VERIF, "known_findings.json")))["findings"] if f.get("status") == "open"]
+    clean = make_copy()
+    try:
+        for name, findings, want_rc, want_text in [
+            ("unchanged tree, committed open findings: reported as KNOWN-FINDING, exit 0", OPEN, 0, "KNOWN-FINDING: property=C16 F1"),
+            ("unchanged tree, F1 not listed: it is a violation", [], 1, "rule_evaluation_hits_the_recursion_limit"),
+        ]:
+            rc, out = run(clean, findings)
+            ok = rc == want_rc and want_text in out and (want_rc == 1 or "VIOLATION" not in out)
+            bad += not ok
+            print(f"{'ok  ' if ok else 'FAIL'} {name}: rc={rc}")
+            if not ok:
+                print(out[-800:])
+    finally:
+        shutil.rmtree(clean, ignore_errors=True)
     try:
         sig = {"oracle": "internal_error_on_rule_text", "details": {"exception": "TypeError", "phase": "load"}}
         cases = [
             ("no entry", [], 1, "VIOLATION property=C16"),
             ("matching open entry (rule path only): the document path is a different violation, still reported",
              [{"status": "open", "property": "C16", "signature": sig, "what": "D2 antecedent ending in 'is' or a hedge raises TypeError"}], 1, "KNOWN-FINDING: property=C16"),
-            ("matching open entries for both call sites",
+            ("matching open entries for all three call sites",
              [{"status": "open", "property": "C16", "signature": sig, "what": "D2 antecedent ending in 'is' or a hedge raises TypeError"},
               {"status": "open", "property": "C16", "signature": {"oracle": "internal_error_on_document", "details": {"exception": "TypeError", "site": "rule.py:load"}},
-               "what": "D2 reached through FllImporter"}], 0, "KNOWN-FINDING: property=C16"),
+               "what": "D2 reached through FllImporter"},
+              {"status": "open", "property": "C16", "signature": {"oracle": "internal_error_on_rule_text", "details": {
+                  "exception": "TypeError", "message": "unsupported operand type(s) for &: 'collections.deque' and 'int'"}},
+               "what": "D2 reached through Rule.create / FllImporter.rule (the other public entry points for rule text)"}], 0, "KNOWN-FINDING: property=C16"),
             ("open entry, other signature", [{"status": "open", "property": "C16", "signature": {"oracle": "internal_error_on_rule_text", "details": {"exception": "IndexError"}}, "what": "x"}], 1, "VIOLATION property=C16"),
             ("fixed entry", [{"status": "fixed", "property": "C16", "commit": "abc", "what": "fixed: ..."}], 1, "VIOLATION property=C16"),
         ]
         for name, findings, want_rc, want_text in cases:
-            rc, out = run(d, findings)
+            rc, out = run(d, findings + OPEN)
             ok = rc == want_rc and want_text in out and (want_rc == 1 or "VIOLATION" not in out)
             bad += not ok
             print(f"{'ok  ' if ok else 'FAIL'} {name}: rc={rc}")
